@@ -490,7 +490,7 @@ class Parser:
         value = self._current_literal()
         if value is None:
             inner_macro = self._context.get_macro(str(self._current_token))
-            if inner_macro is None:
+            if inner_macro.undefined or inner_macro.value is None:
                 return self.token_error('Macro needs constant, got "{}"')
             value = inner_macro.value
         self._context.add_global(name, SymbolType.MACRO, value)
